@@ -194,12 +194,12 @@ Definition verdict_code (v : verdict) : N * N :=
 
 Inductive case :=
 | CAuth (c : config) (m : meta) (pw_ok : bool) (before : N) (code arg after : N)
-| CSeq (max : N) (start : N) (ops : list op) (obs : list (N * bool)).
+| CSeq (max : N) (start : N) (ops : list op) (obs : list (Z * bool)).
 
-Fixpoint obs_eqb (a : list (Z * bool)) (b : list (N * bool)) : bool :=
+Fixpoint obs_eqb (a : list (Z * bool)) (b : list (Z * bool)) : bool :=
   match a, b with
   | [], [] => true
-  | (s, ok) :: a', (s', ok') :: b' => Z.eqb s (Z.of_N s') && Bool.eqb ok ok' && obs_eqb a' b'
+  | (s, ok) :: a', (s', ok') :: b' => Z.eqb s s' && Bool.eqb ok ok' && obs_eqb a' b'
   | _, _ => false
   end.
 
@@ -214,7 +214,7 @@ Definition case_ok (k : case) : bool :=
 
 Definition mismatches (cs : list case) : list N := mismatches_from case_ok 0 cs.
 
-(** MaxSessions travels as max+1000 so that negative values fit in N *)
+(** MaxSessions and observed counters travel as value+1000 so that negative values fit in N *)
 Definition d_case (t : list str) : dec case :=
   fun s =>
     match s with
@@ -227,6 +227,6 @@ Definition d_case (t : list str) : dec case :=
         d_map (fun '(mx, st, ops, obs) => CSeq mx st ops obs)
               (d_pair (d_pair (d_pair d_N d_N)
                  (d_list (d_map (fun b : bool => if b then OAcquire else ORelease) d_bool)))
-                 (d_list (d_pair d_N d_bool))) r
+                 (d_list (d_pair (d_map (fun n => (Z.of_N n - 1000)%Z) d_N) d_bool))) r
     | _ => None
     end.
